@@ -478,6 +478,11 @@ func runShards(states []StateSpec, shards int, outPrefix string, so sessOpts) []
 						tw.Emit(Event{"ev": "Reset"})
 					}
 					env = newEnv(st.World, "p1")
+					for _, pk := range sortedPeerKeys(st.World) {
+						if !env.R.Failing[pk] {
+							env.Recollect(ws[s], pk)
+						}
+					}
 					cur = st.World
 					emitInit(tw, st.World)
 				}
